@@ -205,6 +205,9 @@ def run(ctx):
         k = r.below(7) + 2
         jobs = [[r.below(120) + 5, r.choice([0, 0, 1, 3, 7]), not r.chance(1, 4)] for _ in range(k)]
         tcases.append({'jobs': jobs, 'interval': r.choice([1e-6, 1e-5, 1e-4, 5e-3]), 'decorate': r.chance(1, 3)})
+    # asyncio: tasks run in copies of the context; a worker thread may run with the caller's context (asyncio.to_thread)
+    for sizes, tt in (([6, 1, 3], 0), ([2, 2], 4), ([1, 5, 2, 4], 3), ([3], 2)):
+        tcases.append({'aio': sizes, 'to_thread': tt, 'jobs': [[s, 0, True] for s in sizes] + [[1, 0, True]]})
     ctx.log('threads: %d runs' % len(tcases))
     tres = corelib.run_real(build, tcases, worker='c13_worker.py')
     tbad = 0
